@@ -83,6 +83,8 @@ var variants = []variant{
 	{"abs-double-slash", "/", "{R}//src", ""},
 	{"below-symlinked-parent", "other", "{R}/parentlink/src", "parent-link"},
 	{"below-symlinked-parent-rel", ".", "parentlink/src", "parent-link"},
+	{"dots-behind-symlink", "other", "{R}/hop/../../src", "link-chain"},
+	{"dots-behind-symlink-rel", ".", "hop/../../src", "link-chain"},
 	{"link-abs-target", "other", "{R}/lnabs", "link"},
 	{"link-abs-target-rel-spelling", ".", "lnabs", "link"},
 	{"link-rel-target-from-its-dir", "links", "lnrel", "link"},
@@ -121,6 +123,7 @@ func setupArena(c Case) (r, src string, vars map[string]string, cleanup func(), 
 		{Path: "lnabs", Kind: "symlink", Target: "{R}/src"},
 		{Path: "parentlink", Kind: "symlink", Target: "."},
 		{Path: "ln2", Kind: "symlink", Target: "lnabs"},
+		{Path: "hop", Kind: "symlink", Target: "other/sub"},
 		{Path: "lnslash", Kind: "symlink", Target: "{R}/lnabs/"},
 		{Path: "lnslashrel", Kind: "symlink", Target: "lnabs/"},
 		{Path: "lndots", Kind: "symlink", Target: "{R}/other/../lnabs/."},
